@@ -3,11 +3,20 @@ import lib
 import hubstep
 
 
+def race_expect(v):
+    """The race detector has to report this very pair of source lines (other races in the same run do not count)."""
+    m = v["id"][len("race:"):].split("~")
+    # both source files must occur in the report and at least one of the two exact lines (an access the engine could
+    # only attribute to its function is reported by the detector with its real line)
+    return {"all": ["DATA RACE"] + ["/repo/" + x.split(":")[0] + ":" for x in m], "any": ["/repo/" + x + " " for x in m]}
+
+
 def run(tier):
     c = lib.Check("C20", tier)
     c.assumptions = [
         "LOCKSET: for every pair of entry points that may run on different goroutines the engine executes both (symbolic inputs) on one shared object graph, records every heap / map access with the set of mutexes held, and reports pairs of accesses to the same location from different goroutines with at least one write and no common lock; ordering through `go` (spawn after write) and initialisation of objects allocated during the run (Eraser's exclusive phase) are taken into account, channel hand-offs are not",
         "every candidate is confirmed natively: the same harness, with the same operations, runs the two entry points on two real goroutines under the Go race detector (go test -race); only candidates on which the detector reports DATA RACE are violations",
+        "util.DeepCopy (json round trip) is modelled as a deep copy with fresh slices; slices.SortFunc / sort.Slice write every element of their argument",
         "entry points: hub API calls, connection callbacks, mDNS reports and delayed dial (hub); frame handler, timer expiry, approve/abort, close, payload write, state query, connection error (ship); writer / closer / closed-query against both pumps (ws); resolver callback vs announce / unannounce / auto-accept / request / QR text (mdns manager)",
     ]
     c.bounds = {"entry_points_per_query": 2, "loop_unwind": 64}
@@ -17,6 +26,9 @@ def run(tier):
     ]
     import wsutil
     runs.append(("ws", ["H_C20_Ws"], wsutil.WS_CUTS, None, {}))
+    # the real manager reporting to a real hub (snapshot must not share memory with the registry)
+    runs.append(("mdns", ["H_C20_MdnsHub"], {lib.MOD + "/util.DeepCopy": "deepcopy",
+                                            "(*" + lib.MOD + "/hub.Hub).connectFoundService": "call:" + lib.MOD + "/mdns.vNoDial"}, None, {}))
     for pkg, entries, cuts, redirects, opts in runs:
         res, meta = lib.run_engine(pkg, entries, sched="seq", cuts=cuts, loop=64)
         c.add_run("lockset-" + pkg, res, meta)
@@ -31,7 +43,7 @@ def run(tier):
                         tape = ship_tape
                     native = "H_C20_Ws_Native" if pkg == "ws" else e
                     vv = dict(v, draws=[]) if pkg == "ws" else v
-                    c.handle(pkg, native, vv, make_tape=tape, race=True, hang_s=60, expect={"all": ["DATA RACE"]}, redirects=redirects)
+                    c.handle(pkg, native, vv, make_tape=tape, race=True, hang_s=60, expect=race_expect(v) if pkg != "ws" else {"all": ["DATA RACE"]}, redirects=redirects)
     ship_races(c)
     return c.finish()
 
@@ -83,7 +95,7 @@ def ship_races(c):
             for v in (res2 or {}).get("H_C20_ShipPair", {}).get("violations") or []:
                 if v["kind"] == "race" and name.split(".")[-1] in v["msg"]:
                     before = len(c.violations) + len(c.known_hit)
-                    c.handle("ship", "H_C20_ShipPair", v, make_tape=ship_tape, race=True, hang_s=60, expect={"all": ["DATA RACE"]})
+                    c.handle("ship", "H_C20_ShipPair", v, make_tape=ship_tape, race=True, hang_s=60, expect=race_expect(v))
                     if len(c.violations) + len(c.known_hit) > before:
                         confirmed += 1
                     break
